@@ -73,3 +73,38 @@ package verifspec
 //@   hint return: use mul64mod(x.$high, x.$low, y.$high, y.$low, x48, x32, x16, x00, y48, y32, y16, y00, 0, 0)
 //@   ensures result.$high >= 0 && result.$high <= 4294967295 && result.$low >= 0 && result.$low <= 4294967295
 //@   ensures (result.$high*4294967296 + result.$low - prod(x.$high*4294967296 + x.$low, y.$high*4294967296 + y.$low)) % 18446744073709551616 == 0
+
+// ---- the 64-bit constructors (types.js, $newType, case $kindInt64 / $kindUint64): for integer arguments the stored
+// pair is in representation range and denotes high*2^32 + low modulo 2^64.
+//@ js types.js $newType:$kindInt64
+//@ property C06
+//@   param high: num, low: num
+//@   requires high >= -4503599627370496 && high <= 4503599627370496 && low >= -4503599627370496 && low <= 4503599627370496
+//@   ensures this.$high >= -2147483648 && this.$high <= 2147483647 && this.$low >= 0 && this.$low <= 4294967295
+//@   ensures (this.$high*4294967296 + this.$low - (high*4294967296 + low)) % 18446744073709551616 == 0
+
+//@ js types.js $newType:$kindUint64
+//@ property C06
+//@   param high: num, low: num
+//@   requires high >= -4503599627370496 && high <= 4503599627370496 && low >= -4503599627370496 && low <= 4503599627370496
+//@   ensures this.$high >= 0 && this.$high <= 4294967295 && this.$low >= 0 && this.$low <= 4294967295
+//@   ensures (this.$high*4294967296 + this.$low - (high*4294967296 + low)) % 18446744073709551616 == 0
+
+// $flatten64: the double nearest to... for |value| < 2^53 the sum is exact (the exactness obligation is generated).
+//@ js numeric.js $flatten64
+//@ property C06
+//@   param x: i64
+//@   requires x.$high >= -2097152 && x.$high < 2097152
+//@   ensures result == x.$high*4294967296 + x.$low
+
+// $imul fallback (used when Math.imul is missing): the low 32 bits of the product as an int32.
+//@ lemma imulLimbs(a int, b int, ah int, al int, bh int, bl int)
+//@   interpret prod
+//@   requires a == ah*65536 + al && b == bh*65536 + bl
+//@   ensures prod(a, b) == 4294967296*prod(ah,bh) + 65536*(prod(ah,bl) + prod(al,bh)) + prod(al,bl)
+//@ js numeric.js $imul
+//@ property C06
+//@   param a: int32, b: int32
+//@   hint return: use imulLimbs(a < 0 ? a + 4294967296 : a, b < 0 ? b + 4294967296 : b, ah, al, bh, bl)
+//@   ensures result >= -2147483648 && result <= 2147483647
+//@   ensures (result - prod(a < 0 ? a + 4294967296 : a, b < 0 ? b + 4294967296 : b)) % 4294967296 == 0
